@@ -259,10 +259,14 @@ Definition plthook_exit (s : lst) : option (lst * val) :=
       else exit_common true s
   end.
 
-(* bodies of the __cxa_throw / __cxa_rethrow / _Unwind_Resume wrappers before the real call *)
+(* bodies of the __cxa_throw / __cxa_rethrow wrappers before the real call *)
 Definition do_throw (s : lst) : lst :=
   {| rs := rs s; ridx := ridx s; inexc := true; m := restore_all (rs s) (m s);
      jbs := jbs s; jpc := jpc s; out := out s |}.
+(* body of the _Unwind_Resume wrapper before the real call (since fix 0bd540c): the entries of the frames
+   unwound so far - parent_loc at or below the wrapper's own return-address slot - are dropped first *)
+Definition do_resume (s : lst) (slot : N) : lst :=
+  do_throw (if inexc s then rehook_exception s slot else s).
 (* body of __cxa_begin_catch after the real call (frame_addr already sanity-checked) *)
 Definition do_catch (s : lst) (fa : N) : lst :=
   if inexc s then with_exc (rehook_exception s fa) false else s.
@@ -336,7 +340,7 @@ Definition lstep (s : lst) (o : op) : option (lst * obs) :=
   | Throw => Some (do_throw s, obs0)
   | Unwind => Some (s, obs0)
   | Resume sl r =>
-      let s1 := do_throw (with_m s (upd (m s) sl r)) in
+      let s1 := do_resume (with_m s (upd (m s) sl r)) sl in
       Some (s1, {| o_target := m s1 sl; o_pops := 0 |})
   | Catch fa => Some (do_catch s fa, obs0)
   | Poke sl v => Some (with_m s (upd (m s) sl v), obs0)
@@ -403,7 +407,8 @@ Definition expect := option (N * N).
 
 (* rstep returns None when the operation is not a move of a real program in this state, or leaves the
    domain in which the property is claimed (each exclusion is a *_refuted statement or an assumption):
-     - a cleanup pad calls _Unwind_Resume at a slot still named by the shadow entry of a dropped frame;
+     - a cleanup pad calls _Unwind_Resume at a slot BELOW the return slot of a frame dropped before
+       (never the case in compiled code, where a frame makes all its calls at one stack depth);
      - a traced function entered while in_exception hands a frame address that does not separate
        dropped from live frames (e.g. -mfentry: the word below the slot is not a frame pointer);
      - PLT calls / tail calls while in_exception; setjmp / longjmp / nested throw while an exception
@@ -485,8 +490,10 @@ Definition rstep (st : rstk) (o : op) : option (rstk * expect) :=
       | [] => None
       end
   | Resume s r =>
-      if flight st && below_top (frames st) s && valid_ra r && (extra st =? 0) && negb (mem_N s (stale st))
-      then Some (mk st (frames st) true true 0 (stale st), Some (r, 0)) else None
+      (* compiled code calls _Unwind_Resume at the frame's call-site slot: no dropped frame lies above it *)
+      if flight st && below_top (frames st) s && valid_ra r && (extra st =? 0)
+         && forallb (fun x => x <=? s) (stale st)
+      then Some (mk st (frames st) true true 0 [], Some (r, 0)) else None
   | Catch fa =>
       (* the frame address of the catching frame lies just below its return slot *)
       match frames st with
@@ -654,53 +661,72 @@ Fixpoint bad_indices {A} (f : A -> bool) (l : list A) (i : nat) : list nat :=
   end.
 
 (* ================================================================ Part 2: replay side *)
-(* one record of a task's stream as replay classifies it (fixup_syms) *)
+From Coq Require Import ZArith.
+(* one record of a task's stream as replay classifies it (fixup_syms); an EXIT carries the depth field
+   of the record *)
 Inductive skd := SNormal | SSetjmp (jb : N) | SLongjmp (jb : N).
-Inductive sev := SEntry (k : skd) | SExit.
+Inductive sev := SEntry (k : skd) | SExit (d : N).
 
-(* utils/fstack.c: stack_count / display_depth of the task + the two file-level statics *)
-Record rp := { stack_count : N; display_depth : N; setjmp_depth : N; setjmp_count : N }.
-Definition rp0 := {| stack_count := 0; display_depth := 0; setjmp_depth := 0; setjmp_count := 0 |}.
+(* utils/fstack.c: stack_count / display_depth / longjmp_pending of the task + the two file-level statics
+   (C ints: modelled in Z) *)
+Record rp := { stack_count : Z; display_depth : Z; setjmp_depth : Z; setjmp_count : Z; lj_pending : bool }.
+Definition rp0 := {| stack_count := 0; display_depth := 0; setjmp_depth := 0; setjmp_count := 0; lj_pending := false |}.
 
 (* returns the new state and the depth the record is shown at (replay.c: ENTRY lines use the depth
-   before fstack_update, EXIT lines the depth after it) *)
+   before fstack_update, EXIT lines the depth after it).
+   fstack_update_stack_count (since fix a7444cc): the EXIT after a longjmp is the matching setjmp's; its
+   depth field corrects the guess "latest setjmp" made by the LONGJMP fix-up. *)
 Definition rp_step (p : rp) (e : sev) : rp * N :=
   match e with
   | SEntry k =>
-      let sc := stack_count p + 1 in                          (* fstack_update_stack_count *)
-      let shown := display_depth p in
+      let sc := (stack_count p + 1)%Z in                          (* fstack_update_stack_count *)
+      let shown := Z.to_N (display_depth p) in
       match k with
-      | SNormal => ({| stack_count := sc; display_depth := display_depth p + 1;
-                       setjmp_depth := setjmp_depth p; setjmp_count := setjmp_count p |}, shown)
-      | SSetjmp _ => ({| stack_count := sc; display_depth := display_depth p + 1;
-                         setjmp_depth := display_depth p + 1; setjmp_count := sc |}, shown)
+      | SNormal => ({| stack_count := sc; display_depth := (display_depth p + 1)%Z;
+                       setjmp_depth := setjmp_depth p; setjmp_count := setjmp_count p;
+                       lj_pending := lj_pending p |}, shown)
+      | SSetjmp _ => ({| stack_count := sc; display_depth := (display_depth p + 1)%Z;
+                         setjmp_depth := (display_depth p + 1)%Z; setjmp_count := sc;
+                         lj_pending := lj_pending p |}, shown)
       | SLongjmp _ => ({| stack_count := setjmp_count p; display_depth := setjmp_depth p;
-                          setjmp_depth := setjmp_depth p; setjmp_count := setjmp_count p |}, shown)
+                          setjmp_depth := setjmp_depth p; setjmp_count := setjmp_count p;
+                          lj_pending := true |}, shown)
       end
-  | SExit =>
-      let d := dec (display_depth p) in
-      ({| stack_count := dec (stack_count p); display_depth := d;
-          setjmp_depth := setjmp_depth p; setjmp_count := setjmp_count p |}, d)
+  | SExit d =>
+      let diff := if lj_pending p then (stack_count p - 1 - Z.of_N d)%Z else 0%Z in
+      let sc1 := (stack_count p - diff)%Z in
+      let dd1 := if (diff =? 0)%Z then display_depth p else Z.max 0 (display_depth p - diff) in
+      let sc2 := if (0 <? sc1)%Z then (sc1 - 1)%Z else sc1 in
+      let dd2 := if (0 <? dd1)%Z then (dd1 - 1)%Z else 0%Z in
+      ({| stack_count := sc2; display_depth := dd2;
+          setjmp_depth := setjmp_depth p; setjmp_count := setjmp_count p; lj_pending := false |}, Z.to_N dd2)
   end.
 Fixpoint rp_run (p : rp) (es : list sev) : list N :=
   match es with [] => [] | e :: r => let '(p', d) := rp_step p e in d :: rp_run p' r end.
 
 (* ground truth: the true number of open calls, with one saved depth per jmp_buf.  The EXIT that
-   follows a longjmp entry is the second return of the matching setjmp. *)
-Record gt := { g_depth : N; g_jb : list (N * N) }.
-Definition gt0 := {| g_depth := 0; g_jb := [] |}.
+   follows a longjmp entry is the second return of the matching setjmp (libmcount writes it right
+   after the longjmp's ENTRY), and every EXIT record carries the true depth of the call it closes. *)
+Record gt := { g_depth : N; g_jb : list (N * N); g_pend : bool }.
+Definition gt0 := {| g_depth := 0; g_jb := []; g_pend := false |}.
 Definition gt_step (g : gt) (e : sev) : option (gt * N) :=
   match e with
-  | SEntry SNormal => Some ({| g_depth := g_depth g + 1; g_jb := g_jb g |}, g_depth g)
-  | SEntry (SSetjmp jb) =>
-      Some ({| g_depth := g_depth g + 1; g_jb := (jb, g_depth g + 1) :: g_jb g |}, g_depth g)
-  | SEntry (SLongjmp jb) =>
-      match assoc jb (g_jb g) with
-      | Some d => Some ({| g_depth := d; g_jb := g_jb g |}, g_depth g)
-      | None => None
+  | SEntry k =>
+      if g_pend g then None else
+      match k with
+      | SNormal => Some ({| g_depth := g_depth g + 1; g_jb := g_jb g; g_pend := false |}, g_depth g)
+      | SSetjmp jb =>
+          Some ({| g_depth := g_depth g + 1; g_jb := (jb, g_depth g + 1) :: g_jb g; g_pend := false |}, g_depth g)
+      | SLongjmp jb =>
+          match assoc jb (g_jb g) with
+          | Some d => Some ({| g_depth := d; g_jb := g_jb g; g_pend := true |}, g_depth g)
+          | None => None
+          end
       end
-  | SExit => if 0 <? g_depth g then Some ({| g_depth := g_depth g - 1; g_jb := g_jb g |}, g_depth g - 1)
-             else None
+  | SExit d =>
+      if (0 <? g_depth g) && (d =? g_depth g - 1)
+      then Some ({| g_depth := g_depth g - 1; g_jb := g_jb g; g_pend := false |}, g_depth g - 1)
+      else None
   end.
 Fixpoint gt_run (g : gt) (es : list sev) : option (list N) :=
   match es with
@@ -711,29 +737,19 @@ Fixpoint gt_run (g : gt) (es : list sev) : option (list N) :=
               end
   end.
 
-(* guard: every longjmp goes to the jmp_buf of the most recent setjmp of the stream *)
-Fixpoint latest_only (last : option N) (es : list sev) : bool :=
-  match es with
-  | [] => true
-  | SEntry (SSetjmp jb) :: r => latest_only (Some jb) r
-  | SEntry (SLongjmp jb) :: r =>
-      match last with Some j => (j =? jb) && latest_only last r | None => false end
-  | _ :: r => latest_only last r
-  end.
-
 Definition nlist_eqb := list_eqb N.eqb.
 (* the depths of the ENTRY records only (what one can read off replay's output: `f() {` / `f();` lines) *)
 Fixpoint entry_depths (es : list sev) (ds : list N) : list N :=
   match es, ds with
   | SEntry _ :: er, d :: dr => d :: entry_depths er dr
-  | SExit :: er, _ :: dr => entry_depths er dr
+  | SExit _ :: er, _ :: dr => entry_depths er dr
   | _, _ => []
   end.
-Definition ok_replay_entries (es : list sev) (shown : list N) : bool :=
-  match gt_run gt0 es with Some l => nlist_eqb (entry_depths es l) shown | None => false end.
-Definition agree_replay_entries (es : list sev) (shown : list N) : bool :=
-  nlist_eqb (entry_depths es (rp_run rp0 es)) shown.
 (* checker for a replayed stream: the depths shown are the true ones *)
 Definition ok_replay (es : list sev) (shown : list N) : bool :=
   match gt_run gt0 es with Some l => nlist_eqb l shown | None => false end.
 Definition agree_replay (es : list sev) (shown : list N) : bool := nlist_eqb (rp_run rp0 es) shown.
+Definition ok_replay_entries (es : list sev) (shown : list N) : bool :=
+  match gt_run gt0 es with Some l => nlist_eqb (entry_depths es l) shown | None => false end.
+Definition agree_replay_entries (es : list sev) (shown : list N) : bool :=
+  nlist_eqb (entry_depths es (rp_run rp0 es)) shown.
